@@ -296,4 +296,235 @@ theorem romV21_section_byte_tampered (h : CryptoLaws c) (cfg : Cfg) (wf : Spec.W
     exact ⟨e, ke⟩
   · exact Or.inr kb
 
+/-! ## SB 2.0 image: the same, signed (certificate section in front, signature behind) and unsigned -/
+
+/-- a V2.0 file with arbitrary bytes `B` where the boot sections sit -/
+def file20t (c : CryptoOps) (cfg : Cfg) (hdr : ImageHdr) (cs B sg : Bytes) : Bytes := pre20 c cfg hdr ++ cs ++ B ++ sg
+
+theorem file20_eq_file20t (h : CryptoLaws c) (cfg : Cfg) (hdr : ImageHdr) (cs sg : Bytes) (hok : HdrOk hdr)
+    (wdek : cfg.dek.length = 32) (wmac : cfg.mac.length = 32) (wpad : cfg.padding.length = 8) (hcs : cs.length % 16 = 0) :
+    (pre20 c cfg hdr).length = 208 ∧
+    file20 c cfg hdr cs sg = file20t c cfg hdr cs
+      (buildSections c cfg.dek cfg.mac cfg.nonce (nonceCtr cfg.nonce + (pre20 c cfg hdr ++ cs).length / 16) cfg.sections) sg := by
+  have lH : (encodeImageHdr hdr).length = 96 := encodeImageHdr_length _ hok.nonce hok.padding
+  have ⟨lkw, _, _⟩ := keyBlob_eq h cfg.kek cfg.dek cfg.mac wdek wmac
+  have lpre : (pre20 c cfg hdr).length = 208 := by
+    simp only [pre20, List.length_append, lH, hmac256_length h, lkw, wpad]
+  refine ⟨lpre, ?_⟩
+  have : (pre20 c cfg hdr ++ cs).length / 16 = (pre20 c cfg hdr).length / 16 + cs.length / 16 := by
+    rw [List.length_append, lpre]; omega
+  unfold file20t
+  rw [this, ← Nat.add_assoc]; rfl
+
+/-- what the ROM reads in front of / behind the boot sections does not depend on the section bytes -/
+theorem v20_front (h : CryptoLaws c) (cfg : Cfg) (hdr : ImageHdr) (cs B sg : Bytes) (hok : HdrOk hdr)
+    (wdek : cfg.dek.length = 32) (wmac : cfg.mac.length = 32) (wpad : cfg.padding.length = 8)
+    (lB : B.length = Spec.sectionsLen cfg.sections) :
+    (file20t c cfg hdr cs B sg).length = 208 + cs.length + Spec.sectionsLen cfg.sections + sg.length ∧
+    (file20t c cfg hdr cs B sg).take 96 = encodeImageHdr hdr ∧
+    Rom.slice (file20t c cfg hdr cs B sg) 96 32 = hmac256 c cfg.mac (encodeImageHdr hdr) ∧
+    Rom.slice (file20t c cfg hdr cs B sg) 128 72 = kwWrap c cfg.kek (cfg.dek ++ cfg.mac) ∧
+    Rom.readImageHdr (file20t c cfg hdr cs B sg) = .ok hdr.toRom ∧
+    (file20t c cfg hdr cs B sg).drop (208 + cs.length + Spec.sectionsLen cfg.sections) = sg := by
+  have lH : (encodeImageHdr hdr).length = 96 := encodeImageHdr_length _ hok.nonce hok.padding
+  have ⟨lkw, _, _⟩ := keyBlob_eq h cfg.kek cfg.dek cfg.mac wdek wmac
+  have lpre : (pre20 c cfg hdr).length = 208 := by
+    simp only [pre20, List.length_append, lH, hmac256_length h, lkw, wpad]
+  have hfile2 : file20t c cfg hdr cs B sg = encodeImageHdr hdr ++ hmac256 c cfg.mac (encodeImageHdr hdr) ++
+      (kwWrap c cfg.kek (cfg.dek ++ cfg.mac) ++ cfg.padding) ++ cs ++ B ++ sg ++ [] := by
+    simp only [file20t, pre20, List.append_assoc, List.append_nil]
+  obtain ⟨p1, p2, p3, p4, p5, p6, p7, p8, p9, p10⟩ := parts7 (encodeImageHdr hdr) (hmac256 c cfg.mac (encodeImageHdr hdr))
+    (kwWrap c cfg.kek (cfg.dek ++ cfg.mac) ++ cfg.padding) cs B sg [] lH (hmac256_length h _ _)
+    (by simp only [List.length_append, lkw, wpad])
+  rw [← hfile2] at p1 p2 p3 p4 p5 p6 p7 p8 p9 p10
+  refine ⟨by rw [p1, lB]; simp, p2, p3, ?_, ?_, ?_⟩
+  · have : Rom.slice (file20t c cfg hdr cs B sg) 128 72 = (Rom.slice (file20t c cfg hdr cs B sg) 128 80).take 72 := by
+      simp [Rom.slice, List.take_take]
+    rw [this, p4, List.take_left' lkw]
+  · rw [hfile2]
+    simp only [List.append_assoc]
+    exact readImageHdr_encode _ hok _
+  · rw [← lB]
+    unfold file20t
+    exact List.drop_left' (by simp only [List.length_append, lpre])
+
+theorem romV20_unsigned_of_sections_error (h : CryptoLaws c) (cfg : Cfg) (wf : Spec.WF20 cfg false) (B : Bytes)
+    (lB : B.length = Spec.sectionsLen cfg.sections)
+    (hrs : ∃ e, Rom.readSections c cfg.dek cfg.mac cfg.nonce (file20t c cfg (cfg.header20 false) [] B [])
+        (208 + Spec.sectionsLen cfg.sections) ((file20t c cfg (cfg.header20 false) [] B []).length / 16 + 1) 208 = .error e) :
+    ∃ e, Rom.romV20 c cfg.kek (file20t c cfg (cfg.header20 false) [] B []) = .error e := by
+  have ⟨hok, hrom⟩ := header20_facts cfg false wf
+  obtain ⟨wdek, wmac, wnonce, wpad, wts, wpv, wcv, wbn, wsg, wne, wsec, wlen, wmc⟩ := wf
+  have smod := (buildSections_length h cfg.dek cfg.mac cfg.nonce cfg.sections wsec 0).2
+  obtain ⟨flen, ftake, fhmac, fkw, fread, fdrop⟩ := v20_front h cfg (cfg.header20 false) [] B [] hok wdek wmac wpad lB
+  generalize hfile : file20t c cfg (cfg.header20 false) [] B [] = file at *
+  rw [hrom] at fread
+  simp only [List.length_nil, Nat.add_zero] at flen fdrop
+  generalize hhd : hd20 cfg false = hd at fread
+  have ⟨g1, g2, g3, g4, g6, g7, g8, g9, g10, g11⟩ : hd.major = 2 ∧ hd.minor = 0 ∧ hd.flags = 4 ∧
+      hd.headerBlocks = 6 ∧ hd.keyBlobBlock = 8 ∧ hd.keyBlobBlockCount = 5 ∧
+      hd.firstBootTagBlock = (208 + 0) / 16 ∧
+      hd.imageBlocks = Spec.bodyLen20 cfg false / 16 ∧ hd.nonce = cfg.nonce ∧
+      hd.firstBootSectionId = (cfg.sections.head?.map (·.uid)).getD 0 := by
+    subst hhd; exact ⟨rfl, rfl, rfl, rfl, rfl, rfl, rfl, rfl, rfl, rfl⟩
+  have hbl : Spec.bodyLen20 cfg false = 208 + Spec.sectionsLen cfg.sections := by simp [Spec.bodyLen20]
+  have hstop : Spec.bodyLen20 cfg false / 16 * 16 = 208 + Spec.sectionsLen cfg.sections := by omega
+  have hm : Rom.slice file 96 32 = hmac c .sha256 cfg.mac (file.take 96) := by rw [fhmac, ftake]; rfl
+  obtain ⟨e, he⟩ := hrs
+  unfold Rom.romV20
+  rw [fread]
+  simp only [g1, g2, g3, g4, g6, g7, g8, g9, g10, g11, Spec.imageHeaderSize, Spec.macSize, Spec.flagUnsignedV20, hstop,
+    Nat.reduceMul, Nat.reduceAdd]
+  rw [if_neg (by omega), if_neg (by omega), readKeys_ok h cfg.kek cfg.dek cfg.mac file hd g6 g7 (by omega) fkw wdek wmac]
+  simp only []
+  rw [if_neg (fun hne => hne hm), if_neg (by omega), if_pos trivial, if_neg (by omega), he]
+  exact ⟨_, rfl⟩
+
+theorem romV20_signed_of_sections_error (h : CryptoLaws c) (cfg : Cfg) (wf : Spec.WF20 cfg true) (B : Bytes)
+    (lB : B.length = Spec.sectionsLen cfg.sections)
+    (hrs : ∃ e, Rom.readSections c cfg.dek cfg.mac cfg.nonce
+        (file20t c cfg (cfg.header20 true)
+          (buildCertSection c cfg.dek cfg.mac cfg.nonce (nonceCtr cfg.nonce + (pre20 c cfg (cfg.header20 true)).length / 16) cfg.certBlock)
+          B cfg.signature)
+        (288 + cfg.certBlock.length + Spec.sectionsLen cfg.sections)
+        ((file20t c cfg (cfg.header20 true)
+          (buildCertSection c cfg.dek cfg.mac cfg.nonce (nonceCtr cfg.nonce + (pre20 c cfg (cfg.header20 true)).length / 16) cfg.certBlock)
+          B cfg.signature).length / 16 + 1) (288 + cfg.certBlock.length) = .error e) :
+    ∃ e, Rom.romV20 c cfg.kek
+      (file20t c cfg (cfg.header20 true)
+        (buildCertSection c cfg.dek cfg.mac cfg.nonce (nonceCtr cfg.nonce + (pre20 c cfg (cfg.header20 true)).length / 16) cfg.certBlock)
+        B cfg.signature) = .error e := by
+  have ⟨hok, hrom⟩ := header20_facts cfg true wf
+  obtain ⟨wdek, wmac, wnonce, wpad, wts, wpv, wcv, wbn, wsg, wne, wsec, wlen, wmc⟩ := wf
+  obtain ⟨wcert, wsig⟩ := wsg rfl
+  have cmod := certBlockOk_mod _ wcert
+  have smod := (buildSections_length h cfg.dek cfg.mac cfg.nonce cfg.sections wsec 0).2
+  have hbl : Spec.bodyLen20 cfg true = 288 + cfg.certBlock.length + Spec.sectionsLen cfg.sections := by
+    simp [Spec.bodyLen20]; omega
+  generalize hcs : buildCertSection c cfg.dek cfg.mac cfg.nonce
+    (nonceCtr cfg.nonce + (pre20 c cfg (cfg.header20 true)).length / 16) cfg.certBlock = cs at *
+  have lcs : cs.length = 80 + cfg.certBlock.length := by subst hcs; exact buildCertSection_length h _ _ _ _ _
+  obtain ⟨flen, ftake, fhmac, fkw, fread, fdrop⟩ := v20_front h cfg (cfg.header20 true) cs B cfg.signature hok wdek wmac wpad lB
+  have lpre : (pre20 c cfg (cfg.header20 true)).length = 208 :=
+    (file20_eq_file20t h cfg (cfg.header20 true) cs cfg.signature hok wdek wmac wpad (by omega)).1
+  have hshape : file20t c cfg (cfg.header20 true) cs B cfg.signature
+      = pre20 c cfg (cfg.header20 true) ++ cs ++ (B ++ cfg.signature) := by
+    simp only [file20t, List.append_assoc]
+  obtain ⟨c1, c2, c3, c4, c5⟩ := certSection_facts h cfg.dek cfg.mac cfg.nonce _ cfg.certBlock (B ++ cfg.signature) cs _ lpre wcert
+    (by omega) hcs.symm hshape
+  generalize hfile : file20t c cfg (cfg.header20 true) cs B cfg.signature = file at *
+  rw [hrom] at fread
+  rw [lcs] at flen fdrop
+  rw [show 208 + (80 + cfg.certBlock.length) = 288 + cfg.certBlock.length by omega] at flen fdrop
+  have lsig : 0 < cfg.signature.length := List.length_pos_iff.2 wsig
+  generalize hhd : hd20 cfg true = hd at fread
+  have ⟨g1, g2, g3, g4, g5, g6, g7, g8, g9, g10, g11⟩ : hd.major = 2 ∧ hd.minor = 0 ∧ hd.flags = 8 ∧
+      hd.headerBlocks = 6 ∧ hd.offsetToCert = 288 ∧ hd.keyBlobBlock = 8 ∧ hd.keyBlobBlockCount = 5 ∧
+      hd.firstBootTagBlock = (208 + (80 + cfg.certBlock.length)) / 16 ∧
+      hd.imageBlocks = Spec.bodyLen20 cfg true / 16 ∧ hd.nonce = cfg.nonce ∧
+      hd.firstBootSectionId = (cfg.sections.head?.map (·.uid)).getD 0 := by
+    subst hhd; exact ⟨rfl, rfl, rfl, rfl, rfl, rfl, rfl, rfl, rfl, rfl, rfl⟩
+  have hstop : Spec.bodyLen20 cfg true / 16 * 16 = 288 + cfg.certBlock.length + Spec.sectionsLen cfg.sections := by omega
+  have hstart : (208 + (80 + cfg.certBlock.length)) / 16 * 16 = 288 + cfg.certBlock.length := by omega
+  have hm : Rom.slice file 96 32 = hmac c .sha256 cfg.mac (file.take 96) := by rw [fhmac, ftake]; rfl
+  generalize hsh : (⟨1, 0x8002, Spec.certSectionMark, cfg.certBlock.length / 16, 1⟩ : Rom.RawHdr) = sh at c2
+  have ⟨s1, s2, s3, s4⟩ : sh.tag = 1 ∧ sh.flags = 0x8002 ∧ sh.address = Spec.certSectionMark ∧
+      sh.count = cfg.certBlock.length / 16 := by
+    subst hsh; exact ⟨rfl, rfl, rfl, rfl⟩
+  obtain ⟨e, he⟩ := hrs
+  unfold Rom.romV20
+  rw [fread]
+  simp only [g1, g2, g3, g4, g5, g6, g7, g8, g9, g10, g11, Spec.imageHeaderSize, Spec.macSize, Spec.flagUnsignedV20,
+    Spec.flagSigned, hstop, hstart, Nat.reduceMul, Nat.reduceAdd]
+  rw [if_neg (by omega), if_neg (by omega), readKeys_ok h cfg.kek cfg.dek cfg.mac file hd g6 g7 (by omega) fkw wdek wmac]
+  simp only []
+  rw [if_neg (fun hne => hne hm), if_neg (by omega), if_neg (by omega), if_pos trivial, if_neg (by omega),
+    if_neg (fun hne => hne c1), c2]
+  simp only [s1, s2, s3, s4, Spec.tagTag, Spec.sectCleartext, Spec.sectLast]
+  rw [if_neg (by simp), if_neg (by simp), c3]
+  simp only []
+  rw [if_neg (by omega), if_neg (by omega), c4, if_neg (fun hne => hne c5), if_neg (by omega), he]
+  exact ⟨_, rfl⟩
+
+/-- SB 2.0 (signed or not): ONE changed byte anywhere in the boot-section area is refused, or an HMAC forgery is exhibited -/
+theorem romV20_section_byte_tampered (h : CryptoLaws c) (cfg : Cfg) (signed : Bool) (wf : Spec.WF20 cfg signed) (i : Nat) (v : UInt8)
+    (hi1 : 208 + (if signed then 80 + cfg.certBlock.length else 0) ≤ i)
+    (hi2 : i < 208 + (if signed then 80 + cfg.certBlock.length else 0) + Spec.sectionsLen cfg.sections)
+    (hv : some v ≠ (buildV20 c cfg signed)[i]?) :
+    (∃ e, Rom.romV20 c cfg.kek ((buildV20 c cfg signed).set i v) = .error e) ∨ Break c := by
+  have ⟨hok, hrom⟩ := header20_facts cfg signed wf
+  have wf' := wf
+  obtain ⟨wdek, wmac, wnonce, wpad, wts, wpv, wcv, wbn, wsg, wne, wsec, wlen, wmc⟩ := wf
+  -- common part: a file `P ++ bs ++ sg` with `P` 16-aligned
+  have core : ∀ (cs sg : Bytes), cs.length % 16 = 0 → 208 + cs.length ≤ i → i < 208 + cs.length + Spec.sectionsLen cfg.sections →
+      some v ≠ (file20 c cfg (cfg.header20 signed) cs sg)[i]? →
+      (∃ B, B.length = Spec.sectionsLen cfg.sections ∧
+        (file20 c cfg (cfg.header20 signed) cs sg).set i v = file20t c cfg (cfg.header20 signed) cs B sg ∧
+        ((∃ e, Rom.readSections c cfg.dek cfg.mac cfg.nonce (file20t c cfg (cfg.header20 signed) cs B sg)
+          (208 + cs.length + Spec.sectionsLen cfg.sections)
+          ((file20t c cfg (cfg.header20 signed) cs B sg).length / 16 + 1) (208 + cs.length) = .error e) ∨ Break c)) := by
+    intro cs sg hcs h1 h2 hv
+    obtain ⟨lpre, hshape⟩ := file20_eq_file20t h cfg (cfg.header20 signed) cs sg hok wdek wmac wpad hcs
+    have lP : (pre20 c cfg (cfg.header20 signed) ++ cs).length = 208 + cs.length := by rw [List.length_append, lpre]
+    have ⟨lbs, lbs16⟩ := buildSections_length h cfg.dek cfg.mac cfg.nonce cfg.sections wsec
+      (nonceCtr cfg.nonce + (pre20 c cfg (cfg.header20 signed) ++ cs).length / 16)
+    rw [hshape] at hv ⊢
+    unfold file20t at hv ⊢
+    have hidx : i - (pre20 c cfg (cfg.header20 signed) ++ cs).length = i - (208 + cs.length) := by rw [lP]
+    rw [set_mid' _ _ _ i v (by rw [lP]; omega) (by rw [lbs, lP]; omega), hidx]
+    rw [List.getElem?_append_left (by rw [List.length_append, lbs, lP]; omega),
+      List.getElem?_append_right (by rw [lP]; omega), hidx] at hv
+    refine ⟨_, by rw [List.length_set, lbs], rfl, ?_⟩
+    have hflen : (pre20 c cfg (cfg.header20 signed) ++ cs ++
+        (buildSections c cfg.dek cfg.mac cfg.nonce (nonceCtr cfg.nonce + (pre20 c cfg (cfg.header20 signed) ++ cs).length / 16)
+          cfg.sections).set (i - (208 + cs.length)) v ++ sg).length = 208 + cs.length + Spec.sectionsLen cfg.sections + sg.length := by
+      rw [List.length_append, List.length_append, List.length_set, lbs, lP]
+    have hfuel : cfg.sections.length ≤ (208 + cs.length + Spec.sectionsLen cfg.sections + sg.length) / 16 + 1 := by
+      have := sections_length_le cfg.sections wsec; omega
+    rcases readSections_byte_tampered h cfg.dek cfg.mac cfg.nonce sg cfg.sections wsec (pre20 c cfg (cfg.header20 signed) ++ cs)
+        (by rw [lP]; omega) ((208 + cs.length + Spec.sectionsLen cfg.sections + sg.length) / 16 + 1) hfuel
+        (i - (208 + cs.length)) v (by omega) hv with ⟨e, ke⟩ | kb
+    · left
+      refine ⟨e, ?_⟩
+      rw [hflen]
+      rw [show Rom.readSections c cfg.dek cfg.mac cfg.nonce
+            (pre20 c cfg (cfg.header20 signed) ++ cs ++
+              (buildSections c cfg.dek cfg.mac cfg.nonce (nonceCtr cfg.nonce + (pre20 c cfg (cfg.header20 signed) ++ cs).length / 16)
+                cfg.sections).set (i - (208 + cs.length)) v ++ sg)
+            ((pre20 c cfg (cfg.header20 signed) ++ cs).length + Spec.sectionsLen cfg.sections)
+            ((208 + cs.length + Spec.sectionsLen cfg.sections + sg.length) / 16 + 1)
+            (pre20 c cfg (cfg.header20 signed) ++ cs).length
+          = Rom.readSections c cfg.dek cfg.mac cfg.nonce
+            (pre20 c cfg (cfg.header20 signed) ++ cs ++
+              (buildSections c cfg.dek cfg.mac cfg.nonce (nonceCtr cfg.nonce + (pre20 c cfg (cfg.header20 signed) ++ cs).length / 16)
+                cfg.sections).set (i - (208 + cs.length)) v ++ sg)
+            (208 + cs.length + Spec.sectionsLen cfg.sections)
+            ((208 + cs.length + Spec.sectionsLen cfg.sections + sg.length) / 16 + 1)
+            (208 + cs.length) by rw [lP]] at ke
+      exact ke
+    · exact Or.inr kb
+  cases signed
+  · rw [buildV20_unsigned] at hv ⊢
+    simp only [Bool.false_eq_true, if_false, Nat.add_zero] at hi1 hi2
+    obtain ⟨B, lB, hset, hr⟩ := core [] [] (by simp) (by simpa using hi1) (by simpa using hi2) hv
+    rw [hset]
+    rcases hr with hr | hb
+    · left
+      simp only [List.length_nil, Nat.add_zero] at hr
+      exact romV20_unsigned_of_sections_error h cfg wf' B lB hr
+    · exact Or.inr hb
+  · obtain ⟨wcert, wsig⟩ := wsg rfl
+    have cmod := certBlockOk_mod _ wcert
+    rw [buildV20_signed] at hv ⊢
+    simp only [if_true] at hi1 hi2
+    have lcs := buildCertSection_length h cfg.dek cfg.mac cfg.nonce cfg.certBlock
+      (nonceCtr cfg.nonce + (pre20 c cfg (cfg.header20 true)).length / 16)
+    obtain ⟨B, lB, hset, hr⟩ := core _ cfg.signature (by rw [lcs]; omega) (by rw [lcs]; omega) (by rw [lcs]; omega) hv
+    rw [hset]
+    rcases hr with hr | hb
+    · left
+      rw [lcs, show 208 + (80 + cfg.certBlock.length) = 288 + cfg.certBlock.length by omega] at hr
+      exact romV20_signed_of_sections_error h cfg wf' B lB hr
+    · exact Or.inr hb
+
 end SpsdkVerif.Sb2
